@@ -4,7 +4,9 @@ import json, os
 VERIF = os.path.dirname(os.path.dirname(os.path.abspath(__file__)))
 BASE_NOTE = ("Assumes TLC 1.8.0 / CommunityModules evaluate the spec correctly; CPython fractions/random and numpy.random follow their "
              "documented laws; the projection in harness/common.py forgets only ballot order, duplicates, ids and placeholders. "
-             "Bounded: exhaustive only inside the stated small domains, seeded samples beyond them.")
+             "Bounded: exhaustive only inside the stated small domains, seeded samples beyond them. Magnitudes outside TLC's 32-bit exact range "
+             "(where a check has such inputs) are decided by exact-fraction transcriptions of the same TLA+ definitions, cross-checked against "
+             "TLC on the in-range traces of the same run and counted in evidence as python_compared.")
 CHECKS = {
  "C01": ("bounded TLC model checking of Election.tla (all rule families) + TLC trace validation of recorded runs of all 18 rules",
          "TLC decides partition / exactly-m / monotone status / bounded rounds / error discipline / termination (weak fairness) for the design over every profile, configuration and random outcome in the bound; every recorded round of the real rules (all random branches enumerated by a scripted RNG) is replayed through the same actions and monitors.", "5 C01"),
